@@ -5,8 +5,11 @@ import N0Verif.Proofs.TlvGenEq
 # C16 — positional record codecs (TLV, fixed-width) round-trip, refuse, and terminate
 
 Only property statements live here; helper lemmas are in `Proofs/Tlv.lean`, `Proofs/Fwf.lean`.
-The models follow the code with the fixes C16-a (`parse_tlv` rejects a negative length) and
-C16-b (`load_fwf` appends a tuple to `failed_rows`) applied.
+The models follow the code with the fixes C16-a (`parse_tlv` rejects a negative length),
+C16-b (`load_fwf` appends a tuple to `failed_rows`) and C16-c (`generate_tlv` refuses a
+`len_padding` that `int()` does not read through: probe `int(pad + pad + '1') == 1`) applied.
+Paddings are in the scope of the `int()` model (`padInScope`: Latin-1 or a listed blank); a
+Unicode decimal zero such as U+0660, which the real `int()` reads through, is outside it.
 -/
 namespace N0.C16
 open N0 N0.Py N0.Tlv N0.Fwf
@@ -142,16 +145,16 @@ theorem C16_tlv_fixed_witnesses :
 
 /-! ## generate_tlv then parse_tlv -/
 
-/-- **C16 (TLV round trip).**  For every `int()` that reads the zero/blank padded length field
-back (`IntReads`): if every tag and every length fits its field, generation succeeds and parsing
-the text returns, in order, one `(tag padded to the tag width, len(value), value)` per entry. -/
+/-- **C16 (TLV round trip, any reader).**  For every `int()` that reads the length field back
+when it is padded with a padding the generator accepts (`IntReads`): whatever text
+`generate_tlv` returns parses back, in order, to one `(tag padded to the tag width, len(value),
+value)` per entry. -/
 theorem C16_tlv_roundtrip (pyInt : Str → Option Int) (tl ll : Nat) (tp lp : Char)
-    (hI : IntReads pyInt ll lp) (d : List (Str × Str)) (hf : Fits tl ll d) :
-    ∃ g, generateTlv tl ll tp lp d = .ok g
-      ∧ (parseTlv pyInt g tl ll).status = .done
+    (hI : lenPadOk lp = true → IntReads pyInt ll lp) (d : List (Str × Str)) (g : Str)
+    (hgen : generateTlv tl ll tp lp d = .ok g) :
+    (parseTlv pyInt g tl ll).status = .done
       ∧ (parseTlv pyInt g tl ll).trips.map Trip.view = d.map (expected tl tp) := by
-  obtain ⟨g, hg⟩ := (generateTlv_ok_iff tl ll tp lp d).mpr hf
-  refine ⟨g, hg, ?_⟩
+  obtain ⟨hp, hg⟩ := generateTlv_ok hgen
   have hlen := generated_length hg
   by_cases hs : g.isEmpty = true
   · have hg0 : g = [] := by simpa using hs
@@ -160,7 +163,7 @@ theorem C16_tlv_roundtrip (pyInt : Str → Option Int) (tl ll : Nat) (tp lp : Ch
       exact List.eq_nil_of_length_eq_zero (by simpa using hlen)
     subst hd
     simp [parseTlv, parseTlvFuel, parseWith, hs]
-  · have := loop_generated (pyInt := pyInt) hI d g hg [] (g.length + 1) (by omega)
+  · have := loop_generated (pyInt := pyInt) (hI hp) d g hg [] (g.length + 1) (by omega)
     simp only [List.nil_append, List.length_nil] at this
     simp only [parseTlv, parseTlvFuel, parseWith, hs]
     exact ⟨this.1, this.2.2⟩
@@ -175,40 +178,91 @@ theorem C16_pyint_reads_padded (ll : Nat) (lp : Char) (hlp : lp = '0' ∨ isIntS
   · subst h; exact pyInt_zero_padded _ n
   · exact pyInt_blank_padded _ n lp h
 
+/-- **the probe of `generate_tlv` is exact**: `int(pad + pad + '1') == 1` holds exactly for `'0'`
+and the characters `int()` strips — nothing that round-trips is refused, nothing that is
+accepted fails to round-trip (signs, `_`, other digits, `\x1c`..`\x1f`, letters fail it) -/
+theorem C16_tlv_padding_probe_exact (lp : Char) :
+    lenPadOk lp = true ↔ (lp = '0' ∨ isIntSpace lp = true) := lenPadOk_iff lp
+
+/-- … in particular `int()` reads the field with every padding `generate_tlv` accepts -/
+theorem C16_pyint_reads_accepted (ll : Nat) (lp : Char) (hp : lenPadOk lp = true) :
+    IntReads pyInt ll lp :=
+  C16_pyint_reads_padded ll lp (lenPadOk_reads hp)
+
 theorem C16_pyint_rejects_empty : pyInt [] = none := pyInt_nil
 
-/-- **C16 (TLV round trip, concrete `int()`).** -/
-theorem C16_tlv_roundtrip_pyint (tl ll : Nat) (tp lp : Char) (hlp : lp = '0' ∨ isIntSpace lp = true)
-    (d : List (Str × Str)) (hf : Fits tl ll d) :
-    ∃ g, generateTlv tl ll tp lp d = .ok g
-      ∧ (parseTlv pyInt g tl ll).status = .done
+/-- **C16 (TLV round trip, concrete `int()`), no hypothesis on the paddings**: every text that
+`generate_tlv` returns — whatever the mapping, the widths and the paddings — parses back to one
+`(padded tag, len(value), value)` per entry, in order. -/
+theorem C16_tlv_roundtrip_pyint (tl ll : Nat) (tp lp : Char) (d : List (Str × Str)) (g : Str)
+    (hgen : generateTlv tl ll tp lp d = .ok g) :
+    (parseTlv pyInt g tl ll).status = .done
       ∧ (parseTlv pyInt g tl ll).trips.map Trip.view = d.map (expected tl tp) :=
-  C16_tlv_roundtrip pyInt tl ll tp lp (C16_pyint_reads_padded ll lp hlp) d hf
+  C16_tlv_roundtrip pyInt tl ll tp lp (C16_pyint_reads_accepted ll lp) d g hgen
 
-/-- **C16 (refusal).**  If some tag or length does not fit, generation raises `AssertionError`
-(for every padding) — and conversely any failure of the generator is that refusal. -/
-theorem C16_tlv_refuses (tl ll : Nat) (tp lp : Char) (d : List (Str × Str)) :
-    (¬ Fits tl ll d → generateTlv tl ll tp lp d = .error .AssertionError)
-    ∧ (∀ e, generateTlv tl ll tp lp d = .error e → e = .AssertionError ∧ ¬ Fits tl ll d) := by
+/-- **C16 (acceptance).**  Generation returns a text exactly when every tag and every length fits
+its field and `len_padding` passes the probe (`'0'` or a character `int()` strips:
+`C16_tlv_padding_probe_exact`). -/
+theorem C16_tlv_accepts (tl ll : Nat) (tp lp : Char) (d : List (Str × Str)) :
+    (∃ g, generateTlv tl ll tp lp d = .ok g) ↔ (Fits tl ll d ∧ lenPadOk lp = true) := by
   constructor
-  · intro hnf
-    cases h : generateTlv tl ll tp lp d with
-    | ok g => exact absurd ((generateTlv_ok_iff tl ll tp lp d).mp ⟨g, h⟩) hnf
-    | error e => rw [generateTlv_error tl ll tp lp d e h]
-  · intro e h
-    refine ⟨generateTlv_error tl ll tp lp d e h, ?_⟩
-    intro hf
-    obtain ⟨g, hg⟩ := (generateTlv_ok_iff tl ll tp lp d).mpr hf
-    rw [hg] at h; cases h
+  · rintro ⟨g, h⟩
+    obtain ⟨hp, hg⟩ := generateTlv_ok h
+    exact ⟨(genEntries_ok_iff tl ll tp lp d).mp ⟨g, hg⟩, hp⟩
+  · rintro ⟨hf, hp⟩
+    rw [generateTlv_accepted hp]
+    exact (genEntries_ok_iff tl ll tp lp d).mpr hf
 
-/-- open finding C16-c: with `len_padding='x'` a mapping that fits is written without refusal,
-and the text does not parse back (`int('xx1')` raises) — `IntReads` fails for this padding -/
-theorem C16_tlv_badpad_cex :
+/-- **C16 (refusal).**  If some tag or length does not fit, or the length padding is one that
+`parse_tlv` could not read through, generation raises `AssertionError` and returns no text — and
+conversely any failure of the generator is that refusal. -/
+theorem C16_tlv_refuses (tl ll : Nat) (tp lp : Char) (d : List (Str × Str)) :
+    ((¬ Fits tl ll d ∨ lenPadOk lp = false) → generateTlv tl ll tp lp d = .error .AssertionError)
+    ∧ (∀ e, generateTlv tl ll tp lp d = .error e →
+        e = .AssertionError ∧ (¬ Fits tl ll d ∨ lenPadOk lp = false)) := by
+  have key : ∀ e, generateTlv tl ll tp lp d = .error e → e = .AssertionError := by
+    intro e h
+    cases hp : lenPadOk lp with
+    | false => rw [generateTlv_refused hp] at h; cases h; rfl
+    | true => rw [generateTlv_accepted hp] at h; exact genEntries_error tl ll tp lp d e h
+  constructor
+  · intro hbad
+    cases h : generateTlv tl ll tp lp d with
+    | ok g =>
+      have := (C16_tlv_accepts tl ll tp lp d).mp ⟨g, h⟩
+      rcases hbad with hb | hb
+      · exact absurd this.1 hb
+      · rw [this.2] at hb; cases hb
+    | error e => rw [key e h]
+  · intro e h
+    refine ⟨key e h, ?_⟩
+    by_cases hf : Fits tl ll d
+    · right
+      cases hp : lenPadOk lp with
+      | false => rfl
+      | true =>
+        obtain ⟨g, hg⟩ := (C16_tlv_accepts tl ll tp lp d).mpr ⟨hf, hp⟩
+        rw [hg] at h; cases h
+    · exact Or.inl hf
+
+/-- **C16 (refusal of a padding that cannot be read back; finding C16-c, fixed).**  A
+`len_padding` that fails the probe — neither `'0'` nor a character `int()` strips — is refused
+for every mapping and every width, before anything is written.  (Before the fix `generate_tlv({'A':'x'}, len_padding='x')`
+returned `'A xx1x'`, which `parse_tlv` cannot read: `int('xx1')` raises.) -/
+theorem C16_tlv_refuses_bad_padding (tl ll : Nat) (tp lp : Char) (hp : lenPadOk lp = false)
+    (d : List (Str × Str)) : generateTlv tl ll tp lp d = .error .AssertionError :=
+  generateTlv_refused hp tl ll tp d
+
+/-- the former witness of C16-c: the mapping fits, the padding `'x'` is refused; the text the
+unfixed code wrote (the entry loop alone) does not parse back and `int()` does not read a field
+padded with `'x'`, so the refusal is what keeps "round-trip or refuse" true -/
+theorem C16_tlv_badpad_refused :
     Fits 2 3 [("A".toList, "x".toList)]
-    ∧ generateTlv 2 3 ' ' 'x' [("A".toList, "x".toList)] = .ok "A xx1x".toList
+    ∧ generateTlv 2 3 ' ' 'x' [("A".toList, "x".toList)] = .error .AssertionError
+    ∧ genEntries 2 3 ' ' 'x' [("A".toList, "x".toList)] = .ok "A xx1x".toList
     ∧ parseTlv pyInt "A xx1x".toList 2 3 = { trips := [], off := 0, status := .raised .ValueError }
     ∧ ¬ IntReads pyInt 3 'x' := by
-  refine ⟨by intro e he; simp at he; subst he; decide, by decide, by decide, ?_⟩
+  refine ⟨by intro e he; simp at he; subst he; decide, by decide, by decide, by decide, ?_⟩
   intro h
   have := h 1 (by decide)
   revert this
@@ -260,6 +314,16 @@ example : (parseTlv pyInt "A 001xBB011hello world".toList 2 3).trips.map Trip.vi
 example : (parseTlv pyInt "AA005ab".toList 2 3).status = .done := by decide
 example : ¬ Fits 1 3 [("BB".toList, [])] := by
   intro h; have := h ("BB".toList, []) (by simp); revert this; decide
+-- the round-trip theorem is not vacuous: generation succeeds with the default and with a blank padding
+example : generateTlv 2 3 ' ' '0' [("A".toList, "x".toList), ("BB".toList, "hello world".toList)]
+    = .ok "A 001xBB011hello world".toList := by decide
+example : generateTlv 2 3 '_' '\t' [("A".toList, "x".toList)] = .ok "A_\t\t1x".toList := by decide
+example : lenPadOk '0' = true ∧ lenPadOk ' ' = true ∧ lenPadOk (Char.ofNat 11) = true ∧ lenPadOk (Char.ofNat 0xA0) = true
+    ∧ lenPadOk (Char.ofNat 0x85) = true ∧ lenPadOk (Char.ofNat 0x2003) = true ∧ lenPadOk 'x' = false ∧ lenPadOk '-' = false
+    ∧ lenPadOk '+' = false ∧ lenPadOk '_' = false ∧ lenPadOk '1' = false ∧ lenPadOk (Char.ofNat 0x1C) = false := by decide
+example : generateTlv 2 3 ' ' (Char.ofNat 0xA0) [("A".toList, "x".toList)]
+    = .ok ['A', ' ', Char.ofNat 0xA0, Char.ofNat 0xA0, '1', 'x'] := by decide
+example : padInScope (Char.ofNat 0xA0) = true ∧ padInScope (Char.ofNat 0x2003) = true ∧ padInScope (Char.ofNat 0x660) = false := by decide
 
 /-! ## fixed-width rows -/
 
